@@ -208,12 +208,12 @@ Proof.
     { assert (k_shut (core_of s1) = k_shut (core_of (set_shut true s))) by congruence. exact H. }
     subst s3 s2. destruct (s_boot _); simpl; repeat split; auto. }
   destruct K3 as (K1 & K2 & K3 & K4 & K5 & K6).
-  destruct (release_caps_fixed (exp_clients (s_exp (set_lcalls [] s1))) s3) as (s4 & o4 & H4 & C4).
+  destruct (release_caps_fixed (exp_clients (s_exp s1)) s3) as (s4 & o4 & H4 & C4).
   rewrite H4. cbn [bind].
   assert (I4 : imp_empty s4) by (eapply imp_empty_release_caps; [split; eassumption|exact H4]).
   destruct (lift_all_fixed (s_emb s4) 0 (set_emb [] s4)) as (s5 & o5 & H5 & C5 & I5 & E5).
   rewrite H5. cbn [bind].
-  destruct (release_answers_fixed (s_ans (set_lcalls [] s1)) s5) as (s6 & o6 & H6 & C6).
+  destruct (release_answers_fixed (s_ans s1) s5) as (s6 & o6 & H6 & C6).
   rewrite H6. cbn [bind].
   eexists _, _. split; [reflexivity|].
   assert (I5' : imp_empty s5).
